@@ -33,6 +33,7 @@ where
     L: BatchedGradientTarget<T, B>,
 {
     fn unnorm_logp_batch(&self, positions: Tensor<B, 2>) -> Tensor<B, 1> {
+        tick();
         self.lib.unnorm_logp_batch(positions)
     }
 }
